@@ -15,7 +15,7 @@ CHECKS["C15"] = dict(cat="exploration", tech="deterministic baton scheduler over
     text="All sub-operation interleavings of all pairs of <=2-operation thread programs are executed with real threads under a scheduler the harness owns, plus pre-emption-bounded 3-operation pairs, random 2-3 thread schedules with thread-identifier reuse, the real singleton end to end, and every documented value form for coercion; after every step every live thread's read of every key is compared with a reference model. Complete within the stated bounds only. A boundary stream checks that a lazily evaluated runner built on one side of a scope / thread boundary and evaluated on the other sees the configuration in effect where and when it is evaluated.",
     ref="DESIGN.md section 4 C15")
 CHECKS["C17"] = dict(cat="exploration", tech="bounded-exhaustive path enumeration against a scratch tree with marker files; disclosure oracle on WSGI responses",
-    text="Every path of <=4 (quick) / <=5 (thorough) segments over the adversarial segment alphabet, absolute and relative, is sent to every route of the WSGI app; any marker token or directory listing from outside the route's root is a violation. Exhaustive within the bound (1.2M / 20M requests). Home spellings (~, $HOME, %7E; HOME outside the roots) and the root setting '.' with the process inside it are enumerated too.",
+    text="Every path of <=4 (quick) / <=5 (thorough) segments over the adversarial segment alphabet, absolute and relative, is sent to every route of the WSGI app; any marker token or directory listing from outside the route's root is a violation. Exhaustive within the bound (1.2M / 20M requests). Home spellings (~, $HOME, %7E; HOME outside the roots) and the root setting '.' with the process inside it are enumerated too, and root histories (the long-lived application's root re-pointed between requests: 12 ordered pairs of roots x every path of <=2 segments x POST route, judged against the current root).",
     ref="DESIGN.md section 4 C17")
 CHECKS["C05"] = dict(cat="exploration", tech="Hypothesis script assembly with separator/comment noise; splitter oracle + differential against per-statement analysis combined through SQLLineageHolder.of",
     text="Scripts of 1-5 calibrated corpus statements joined by every separator/noise variant (semicolons in comments and literals, comment-only statements, tsql no-semicolon mode) must report exactly the generated statements in order and the same tables, edges and column paths as the combination of the statements analysed alone. Sampled (2k quick / 30k thorough scripts).",
@@ -54,13 +54,13 @@ CHECKS["C04"] = dict(cat="exploration", tech="Hypothesis-generated multi-stateme
     text="Scripts of 2-4 generated statements whose later statements read earlier targets (linear, diamond, fan-in/out, re-written intermediates, through derived tables) are analysed with and without a metadata provider; the reported paths (subquery columns removed) must be exactly the simple root->leaf paths of the composed per-statement reference graph, including star expansion and unqualified-column attribution from session metadata. Sampled.",
     ref="DESIGN.md section 4 C04")
 CHECKS["C08"] = dict(cat="exploration", tech="metamorphic testing on the SQL IR: capture-free renaming of all statement-local names, alias add/remove, AS toggling",
-    text="Generated statements are compared with their alpha-renamed versions (names from fresh, MixedCase, keyword-like, unused-table and - as a finding probe - used-table pools), with aliases added/removed and with AS toggled; tables and end-to-end column pairs must be identical. Sampled.",
+    text="Generated statements are compared with their alpha-renamed versions (names from fresh, MixedCase, keyword-like, unused-table and - as a finding probe - used-table pools), with aliases added/removed and with AS toggled; tables and end-to-end column pairs must be identical. Sampled. Also crafted multi-block statements incl. recursive CTEs, and a text-template stream for aliased LATERAL derived tables under the five dialects that have them.",
     ref="DESIGN.md section 4 C08")
 CHECKS["C13"] = dict(cat="exploration", tech="bounded-exhaustive knowledge assignments over shape templates + Hypothesis, against the metadata-aware reference semantics; differential with/without provider and between the two bundled providers",
     text="Every shape template x every known/unknown assignment (with column-overlap patterns) over <=3 scope tables and the target is analysed with and without metadata: table lineage must not change, unknown-only statements must equal the no-provider result, column pairs must equal the metadata-aware reference model, and the dict-backed and SQLAlchemy (in-memory sqlite) providers must agree. Also multi-statement scripts (each template between extra write-only / read-only / DROP / feeding statements) judged on table lineage with and without provider, and known targets whose columns are the select list's names in another order. Every enumerated case is judged again over three-part names (dict-backed provider) and under other dialects (3 rotating in quick, 12 in thorough); explicit column lists that permute a known target's columns must win.",
     ref="DESIGN.md section 4 C13")
 CHECKS["C16"] = dict(cat="exploration", tech="bounded-exhaustive spelling x position x dialect enumeration against a reference normalisation; Hypothesis on the normalisation helper and on equality/hash of model objects",
-    text="Every case pattern x quote style x 1-3 name parts x syntactic position (FROM, target, column, qualifier, partial qualifier, qualified wildcard, alias, INSERT list, CTE name, write-then-read chains) under 7 dialects covering the three quote styles must print the reference-normalised entity and connect chains; the helper must normalise well-formed spellings as specified; equal entities must hash equally. The listed finding is identified cell-exactly (statement, dialect, discrepancy hash).",
+    text="Every case pattern x quote style x 1-3 name parts x syntactic position (FROM, target, column, qualifier, partial qualifier, qualified wildcard, alias, INSERT list, CTE name, write-then-read chains, session-metadata chains with a provider in use) under 7 dialects covering the three quote styles must print the reference-normalised entity and connect chains; the helper must normalise well-formed spellings as specified; equal entities must hash equally. The listed finding is identified cell-exactly (statement, dialect, discrepancy hash).",
     ref="DESIGN.md section 4 C16")
 NA = {}
 def main():
